@@ -98,7 +98,25 @@ type iter struct {
 }
 
 func kOf(k treemap.KeyType) int64 { return int64(k.(K)) }
-func vOf(v interface{}) int64     { return v.(int64) }
+
+// Values are int64 or the untyped nil: nil travels through the case format as the reserved
+// integer nilCode (coq/C10/Run.v nil_code).  Where the API cannot tell "no value" from "the value
+// nil" (Put's and SetValue's previous value) both are written (); Run.v encodes the model's
+// answer the same way for exactly those operations.
+const nilCode = -999999999
+
+func vOf(v interface{}) int64 {
+	if v == nil {
+		return nilCode
+	}
+	return v.(int64)
+}
+func toVal(v int64) interface{} {
+	if v == nilCode {
+		return nil
+	}
+	return v
+}
 
 func optVal(v interface{}) Sx {
 	if v == nil {
@@ -156,7 +174,7 @@ func newIter(m *treemap.Map, kind int64) *iter {
 		return w
 	case 4:
 		it := m.ValueIterator()
-		return &iter{hasNext: it.HasNext, next: func() Sx { return optVal(it.Next()) }, remove: func() { it.Remove() }}
+		return &iter{hasNext: it.HasNext, next: func() Sx { return Ints(vOf(it.Next())) }, remove: func() { it.Remove() }}
 	}
 	return nil
 }
@@ -287,7 +305,7 @@ func apply(m *treemap.Map, its *[nSlots]*iter, op Sx, st *stats) Sx {
 	case opPut:
 		before := m.Size()
 		after := classify(m, st, true, arg(1), arg(2))
-		r := optVal(m.Put(K(arg(1)), arg(2)))
+		r := optVal(m.Put(K(arg(1)), toVal(arg(2))))
 		after()
 		if m.Size() != before {
 			st.mutations++
@@ -312,11 +330,11 @@ func apply(m *treemap.Map, its *[nSlots]*iter, op Sx, st *stats) Sx {
 			}
 			return List()
 		}
-		return optVal(v)
+		return Ints(vOf(v)) // found: (v), with v = nilCode for a nil value
 	case opContains:
 		return Bool(m.Contains(K(arg(1))))
 	case opGetOrDefault:
-		return Int(vOf(m.GetOrDefault(K(arg(1)), arg(2))))
+		return Int(vOf(m.GetOrDefault(K(arg(1)), toVal(arg(2)))))
 	case opSize:
 		return Int(int64(m.Size()))
 	case opIsEmpty:
@@ -435,14 +453,14 @@ func apply(m *treemap.Map, its *[nSlots]*iter, op Sx, st *stats) Sx {
 			return List() // no live entry: not applicable
 		}
 		st.setValues++
-		return optVal(it.lastE.SetValue(arg(2)))
+		return optVal(it.lastE.SetValue(toVal(arg(2))))
 	case opSetValueAt:
 		e := access(m, arg(1), arg(2))
 		if e == nil {
 			return List()
 		}
 		st.setValues++
-		return optVal(e.SetValue(arg(3)))
+		return optVal(e.SetValue(toVal(arg(3))))
 	case opEntryEquals:
 		e1, e2 := access(m, arg(1), arg(2)), access(m, arg(3), arg(4))
 		if e1 == nil || e2 == nil {
@@ -581,6 +599,9 @@ func (h *hist) qkey() int64 { return h.lo - 2 + int64(h.rng.Intn(int(h.hi-h.lo)+
 
 // mostly fresh values; one in four from {1,2,3} so that different keys share a value
 func (h *hist) val() int64 {
+	if h.rng.Intn(10) == 0 {
+		return nilCode // the untyped nil is a legal value
+	}
 	if h.rng.Intn(4) == 0 {
 		return 1 + int64(h.rng.Intn(3))
 	}
@@ -662,7 +683,11 @@ func (h *hist) randomOp() {
 	case w < 50:
 		h.add(opContains, h.qkey())
 	case w < 52:
-		h.add(opGetOrDefault, h.qkey(), -int64(r.Intn(9))-1)
+		if r.Intn(4) == 0 {
+			h.add(opGetOrDefault, h.qkey(), nilCode)
+		} else {
+			h.add(opGetOrDefault, h.qkey(), -int64(r.Intn(9))-1)
+		}
 	case w < 55:
 		h.add(opSize)
 	case w < 56:
@@ -929,9 +954,42 @@ func gen(a Args, out *Out) {
 		h.finish()
 		emit("build-"+order, h)
 	}
+	// 4b. counter rewind: an iterator made stale by Clear must stay stale when the map is grown
+	// back to the same number of modifications (a Clear that resets the counter would make the
+	// stale iterator's expected version valid again)
+	for c := 0; c < 30*scale; c++ {
+		h := &hist{rng: rng.Fork(), lo: -4, hi: 12, probeP: 0}
+		n := 1 + h.rng.Intn(8)
+		ks := h.keysInOrder(orders[c%4], n)
+		for _, k := range ks {
+			h.add(opPut, k, h.val())
+		}
+		mods := n
+		h.add(opIterNew, int64(c%5), 0)
+		for i, nexts := 0, h.rng.Intn(n+1); i < nexts; i++ {
+			h.add(opIterNext, 0)
+			if h.rng.Intn(3) == 0 {
+				h.add(opIterRemove, 0)
+				mods++
+			}
+		}
+		h.add(opClear)
+		// grow back: mods (sometimes one fewer / one more) insertions of fresh keys
+		grow := mods + []int{0, 0, 0, -1, 1}[h.rng.Intn(5)]
+		for i := 0; i < grow; i++ {
+			h.add(opPut, 100+int64(i), h.val())
+		}
+		h.add(opIterHasNext, 0)
+		h.add(opIterNext, 0)
+		h.add(opIterRemove, 0)
+		h.add(opIterSetValue, 0, h.val())
+		h.add(opIterNext, 0)
+		h.finish()
+		emit("rewind", h)
+	}
 	// 5. churn: long put/remove runs over 12..16 keys (a colour-only corruption needs a few hundred
 	// further operations on the same small tree before it becomes a height-bound failure)
-	for c := 0; c < 20*scale; c++ {
+	for c := 0; c < 40*scale; c++ {
 		u := int64(12 + c%5)
 		h := &hist{rng: rng.Fork(), lo: 0, hi: u, probeP: 0}
 		nops := 300 + h.rng.Intn(101)
@@ -1023,6 +1081,78 @@ func gen(a Args, out *Out) {
 		}
 	}
 	goSweep(a, rng.Fork(), out)
+	// The sweep's findings name no replayable input.  When it (or nothing else yet) has found a
+	// property failure, look for a small history on which the height bound itself breaks and
+	// record it as an ordinary case, so that the Coq side reports it with a replay.
+	if len(out.GoViol) > 0 && confirmedHangs == 0 {
+		if h := searchHeightFailure(rng.Fork()); h != nil {
+			emit("churn-search", h)
+			out.Note("a Go-side finding triggered the search for a small history breaking the height bound: found (%d operations)", len(h.ops))
+		} else {
+			out.Note("a Go-side finding triggered the search for a small history breaking the height bound: none found within the budget")
+		}
+	}
+}
+
+// searchHeightFailure churns small maps (10..24 keys, up to 1500 put/remove operations each, for
+// at most 20 s) until the real tree violates height <= 2*log2(n+1); the history up to that point
+// is returned with probes every 8 operations.
+func searchHeightFailure(rng *Rng) *hist {
+	deadline := time.Now().Add(20 * time.Second)
+	for time.Now().Before(deadline) {
+		u := int64(10 + rng.Intn(15))
+		h := &hist{rng: rng.Fork(), lo: 0, hi: u}
+		m := treemap.New()
+		type op struct {
+			put  bool
+			k, v int64
+		}
+		var ops []op
+		for i := 0; i < 1500; i++ {
+			o := op{put: h.rng.Intn(100) < 55, k: h.key(), v: int64(i + 1)}
+			ops = append(ops, o)
+			hung, _ := Catch(func() {
+				if o.put {
+					m.Put(K(o.k), o.v)
+				} else {
+					m.Remove(K(o.k))
+				}
+			})
+			if hung {
+				break
+			}
+			nodes, pok, _, _ := m.VerifDump(64)
+			if !pok {
+				break
+			}
+			if ht := heightOf(fromDump(nodes)); ht < 62 && (uint64(1)<<uint(ht)) > uint64(len(nodes)+1)*uint64(len(nodes)+1) {
+				for j, o := range ops {
+					if o.put {
+						h.add(opPut, o.k, o.v)
+					} else {
+						h.add(opRemove, o.k)
+					}
+					if j%8 == 7 {
+						h.add(opProbe)
+					}
+				}
+				h.finish()
+				return h
+			}
+		}
+	}
+	return nil
+}
+
+func heightOf(t *sh) int {
+	if t == nil {
+		return 0
+	}
+	l, r := heightOf(t.l), heightOf(t.r)
+	if r > l {
+		l = r
+	}
+	return l + 1
 }
 
 // ------------------------------------------------------------------ Go-side volume
